@@ -334,8 +334,8 @@ Proof.
   replace (s_h1 ++ hf_sum HS e ++ [NL] ++ marshal_lines e)
     with ((s_h1 ++ hf_sum HS e) ++ NL :: marshal_lines e)
     by (rewrite <- app_assoc; reflexivity).
-  rewrite scan_lines_line by (apply header_line; exact HS_shape).
-  cbn [map tl]. rewrite (header_drop_cr HS HS_shape), trim_prefix_app.
+  rewrite scan_lines_line by (apply header_line, hash_ok_text, HS_shape).
+  cbn [map tl]. rewrite header_drop_cr by (apply hash_ok_text, HS_shape). rewrite trim_prefix_app.
   destruct (parse_lines _) as [es|]; [|discriminate].
   destruct (bytes_eqb (hf_sum HS e) (hf_sum HS es)) eqn:E; [|discriminate].
   intros H; inversion H; subst. apply bytes_eqb_eq in E. congruence.
